@@ -52,7 +52,13 @@ def twins(chk, cases, bad, extra):
     extra["twin_relation"] = {"histories_compared": compared, "differing": differing}
 
 
+def _post(chk, cases, bad, extra):
+    twins(chk, cases, bad, extra)
+    import wide_explore
+    wide_explore.explore_frozen(chk, extra)
+
+
 def main(tier, replay=None):
     if replay:
         return inst_check.replay("C07", replay, 64)
-    return inst_check.run("C07", tier, 64, GENS, 350, 6000, ASSUMPTIONS, post=twins)
+    return inst_check.run("C07", tier, 64, GENS, 350, 6000, ASSUMPTIONS, post=_post)
